@@ -138,6 +138,49 @@ func (t *encTagStruct) Tags() ([]encrypt.PointerTag, error) {
 	}, nil
 }
 
+// encTagDeep is a Taggable struct that owns further Taggables: as a direct field,
+// two structs down, and as slice elements.
+type encTagInner struct {
+	Note  string `class:"secret"`
+	Deep  encTagMap
+	DeepS *encTagStruct
+}
+
+type encTagDeep struct {
+	Attrs  map[string]interface{}
+	Direct encTagMap
+	Inner  encTagInner
+	Elems  []encTagMap
+	Free   string `class:"sensitive"`
+}
+
+func (t *encTagDeep) Tags() ([]encrypt.PointerTag, error) {
+	return []encrypt.PointerTag{
+		{Pointer: "/Attrs/name", Classification: encrypt.SensitiveClassification, Filter: encrypt.RedactOperation},
+		{Pointer: "/Attrs/pub", Classification: encrypt.PublicClassification},
+	}, nil
+}
+
+// encAfter has class-tagged fields, structs and Taggables declared before AND after
+// a Taggable struct.
+type encAfterSub struct {
+	T encTagMap
+	S string `class:"sensitive,hmac-sha256"`
+}
+
+type encAfter struct {
+	Head     string `class:"secret"`
+	TD       *encTagDeep
+	Tail     string   `class:"secret"`
+	TailS    string   `class:"sensitive"`
+	TailB    []byte   `class:"sensitive,hmac-sha256"`
+	TailStrs []string `class:"secret"`
+	TailLeaf *encLeaf
+	TailT    encTagMap
+	TailSub  encAfterSub
+	TailTS   *encTagStruct
+}
+
 // encBadTag has a tag pointer that cannot be resolved into a path.
 type encBadTag map[string]interface{}
 
@@ -489,6 +532,80 @@ func (g *encGen) tagStruct(where string) *encTagStruct {
 	return t
 }
 
+func (g *encGen) tagDeep(where string) *encTagDeep {
+	t := &encTagDeep{Attrs: map[string]interface{}{}}
+	if g.want() {
+		t.Attrs["name"] = g.canary(g.treatFor("sensitive,redact", true), where+".Attrs{name}")
+	}
+	if g.want() {
+		t.Attrs["pub"] = g.canary("keep", where+".Attrs{pub}")
+	}
+	if g.want() {
+		t.Attrs["untagged"] = g.canary("redact", where+".Attrs{untagged}")
+	}
+	if g.want() {
+		t.Direct = g.tagMap(where + ".Direct")
+	}
+	if g.want() {
+		t.Inner.Note = g.canary(g.treatFor("secret", true), where+".Inner.Note")
+	}
+	if g.want() {
+		t.Inner.Deep = g.tagMap(where + ".Inner.Deep")
+	}
+	if g.want() {
+		t.Inner.DeepS = g.tagStruct(where + ".Inner.DeepS")
+	}
+	if g.want() {
+		n := 1 + g.d.next(2)
+		for i := 0; i < n; i++ {
+			t.Elems = append(t.Elems, g.tagMap(where+".Elems[]"))
+		}
+	}
+	if g.want() {
+		t.Free = g.canary(g.treatFor("sensitive", true), where+".Free")
+	}
+	return t
+}
+
+func (g *encGen) after(where string) *encAfter {
+	a := &encAfter{}
+	if g.want() {
+		a.Head = g.canary(g.treatFor("secret", true), where+".Head")
+	}
+	if g.d.next(8) != 0 {
+		a.TD = g.tagDeep(where + ".TD")
+	}
+	if g.want() {
+		a.Tail = g.canary(g.treatFor("secret", true), where+".Tail")
+	}
+	if g.want() {
+		a.TailS = g.canary(g.treatFor("sensitive", true), where+".TailS")
+	}
+	if g.want() {
+		a.TailB = []byte(g.canary(g.treatFor("sensitive,hmac-sha256", true), where+".TailB"))
+	}
+	if g.want() {
+		a.TailStrs = []string{g.canary(g.treatFor("secret", true), where+".TailStrs[]")}
+	}
+	if g.want() {
+		l := g.leaf(where + ".TailLeaf")
+		a.TailLeaf = &l
+	}
+	if g.want() {
+		a.TailT = g.tagMap(where + ".TailT")
+	}
+	if g.want() {
+		a.TailSub.T = g.tagMap(where + ".TailSub.T")
+	}
+	if g.want() {
+		a.TailSub.S = g.canary(g.treatFor("sensitive,hmac-sha256", true), where+".TailSub.S")
+	}
+	if g.want() {
+		a.TailTS = g.tagStruct(where + ".TailTS")
+	}
+	return a
+}
+
 // payload builds one top-level payload; kind names the top-level shape.
 func (g *encGen) payload(kind int, depth int) (interface{}, string) {
 	switch kind {
@@ -522,6 +639,10 @@ func (g *encGen) payload(kind int, depth int) (interface{}, string) {
 		return wrapperspb.String(g.canary("redact", "*wrapperspb.Value")), "*wrapperspb.StringValue"
 	case 14:
 		return &encEmb{encLeaf: g.leaf("*emb.encLeaf"), Extra: g.canary(g.treatFor("secret", true), "*emb.Extra")}, "*struct(embedded)"
+	case 15:
+		return g.after("*after"), "*struct(taggable-struct-then-fields)"
+	case 16:
+		return g.tagDeep("tagdeep"), "*taggable-struct(nested-taggables)"
 	default:
 		return g.outer("*outer", depth), "*struct"
 	}
@@ -883,7 +1004,7 @@ func runEncrypt(rc *RunCtx, prop string) {
 			d := &drawRec{tape: tp}
 			fill := []int{15, 40, 80}[tp.Choose(3, "fill")]
 			g := &encGen{d: d, exp: map[string]*leafExp{}, overrides: overrides, fill: fill, withIgnored: withIgnored}
-			kind := tp.Choose(15, "kind")
+			kind := tp.Choose(17, "kind")
 			depth := tp.Choose(3, "depth")
 			var payload interface{}
 			var top string
